@@ -109,22 +109,26 @@ J1_KINDS = SCALAR_KINDS + ["arr_scalar", "obj_scalar"]
 J1_SPLIT = SCALAR_KINDS + ["arr_int", "arr_str", "obj_int", "obj_str"]
 
 
-def small(x, L=2, N=2):
-    """Size bound of the JSON domain: strings <= L code points, containers <= N entries, recursively."""
+def small(x, L=2, N=2, N2=None):
+    """Size bound of the JSON domain: strings <= L code points, containers <= N entries (nested
+    containers <= N2 when given), recursively."""
+    M = N if N2 is None else N2
     if isinstance(x, str):
         return len(x) <= L
     if isinstance(x, list):
         if len(x) > N:
             return False
         for i in x:
-            if not small(i, L, N):
+            if not small(i, L, M, N2):
                 return False
         return True
     if isinstance(x, dict):
         if len(x) > N:
             return False
-        for k, v in x.items():
-            if len(k) > L or not small(v, L, N):
+        for k in x:          # never .items() on a symbolic dict in a precondition (measured: 120 paths vs 12)
+            if len(k) > L:
+                return False
+            if not small(x[k], L, M, N2):
                 return False
         return True
     return True
